@@ -120,8 +120,17 @@ def build(case):
         a1 = audit
         if case["n_strata"] != 1:
             a1 = Audit.from_dict({"strata": {"s": {"max_cards": case["max_cards"], "use_style": case["use_style"]}}})
-        cvrs, _n = CVR.make_phantoms(a1, contests, cvrs, prefix="phantom-", tally_pool=ph.get("tally_pool"),
-                                     pool=bool(ph.get("pool", False)))
+        if case.get("call") == "defaults":
+            # optional arguments that hold their documented defaults are left out of the call
+            kw = {}
+            if ph.get("tally_pool") is not None:
+                kw["tally_pool"] = ph.get("tally_pool")
+            if ph.get("pool", False):
+                kw["pool"] = True
+            cvrs, _n = CVR.make_phantoms(audit=a1, contests=contests, cvr_list=cvrs, **kw)
+        else:
+            cvrs, _n = CVR.make_phantoms(a1, contests, cvrs, prefix="phantom-", tally_pool=ph.get("tally_pool"),
+                                         pool=bool(ph.get("pool", False)))
     if case.get("add_pool_contests"):
         CVR.add_pool_contests(cvrs, CVR.pool_contests(cvrs))
     nums = case["sample_nums"]
@@ -206,8 +215,15 @@ def impl(case):
         if arg == "pool_contests":
             arg = CVR.pool_contests(cvrs)
 
+        dflt = case.get("call") == "defaults"
+
         def f():
-            asn.assorter.set_tally_pool_means(cvr_list=cvrs, tally_pools=arg, use_style=us)
+            if dflt:
+                # `tally_pools` left out when there is none, `use_style` left out when it is True (the defaults)
+                kw = ({} if arg is None else {"tally_pools": arg}) | ({} if us else {"use_style": us})
+                asn.assorter.set_tally_pool_means(cvrs, **kw)
+            else:
+                asn.assorter.set_tally_pool_means(cvr_list=cvrs, tally_pools=arg, use_style=us)
             return {"st": "ok", "means": [[k, _num(v)] for k, v in asn.assorter.tally_pool_means.items()]}
         res["pm"] = _call(f)
     if case.get("means_override") is not None:
@@ -240,6 +256,16 @@ def impl(case):
         # (Dominion/Hart.sample_from_cvrs, sample_from_manifest), or the contest listed without votes (make_phantoms)
         mph0 = CVR(id=m.id, votes={}, phantom=_true)
         mphc = CVR(id=m.id, votes={CID: {}}, phantom=_true)
+        if case.get("call") == "defaults" and us:
+            # style-based sampling is the default of both functions: the argument is left out, records go by keyword
+            pairs.append({
+                "o": _call(lambda: {"st": "ok", "v": _num(asn.assorter.overstatement(m, c))}),
+                "b": _call(lambda: {"st": "ok", "v": _num(asn.overstatement_assorter(mvr=m, cvr=c))}),
+                "bph": _call(lambda: {"st": "ok", "v": _num(asn.overstatement_assorter(mph, c))}),
+                "bph0": _call(lambda: {"st": "ok", "v": _num(asn.overstatement_assorter(cvr=c, mvr=mph0))}),
+                "bphc": _call(lambda: {"st": "ok", "v": _num(asn.overstatement_assorter(mphc, c))}),
+            })
+            continue
         pairs.append({
             "o": _call(lambda: {"st": "ok", "v": _num(asn.assorter.overstatement(m, c, us))}),
             "b": _call(lambda: {"st": "ok", "v": _num(asn.overstatement_assorter(m, c, use_style=us))}),
@@ -259,7 +285,11 @@ def impl(case):
 
     def data(ms, cs, use_all):
         def h():
-            d, u = asn.mvrs_to_data(ms, cs, use_all=use_all)
+            if case.get("call") == "defaults":
+                d, u = (asn.mvrs_to_data(mvr_sample=ms, cvr_sample=cs, use_all=True) if use_all
+                        else asn.mvrs_to_data(mvr_sample=ms, cvr_sample=cs))
+            else:
+                d, u = asn.mvrs_to_data(ms, cs, use_all=use_all)
             return {"st": "ok", "d": [_num(x) for x in d], "u": _num(u)}
         return _call(h)
     res["dat"] = data(sm, sc, False)
@@ -269,7 +299,10 @@ def impl(case):
     asn.test.u = -12345.0
     raised = None
     try:
-        Assertion.set_p_values(contests, sm, sc)
+        if case.get("call") == "defaults":
+            Assertion.set_p_values(contests=contests, mvr_sample=sm, cvr_sample=sc)
+        else:
+            Assertion.set_p_values(contests, sm, sc)
     except Exception as e:  # noqa
         raised = err_kind(e)
     res["inst"] = {"u": _num(asn.test.u), "raised": raised}
@@ -726,7 +759,33 @@ def single_pair_table():
     return out
 
 
+def gen_options(rng):
+    """call forms the main stream never uses (OPTIONS_AUDIT.md): the optional arguments of Assorter.overstatement,
+    Assertion.overstatement_assorter, Assorter.set_tally_pool_means, Assertion.mvrs_to_data and CVR.make_phantoms left
+    at their documented defaults (use_style=True, tally_pools=None, use_all=False, prefix='phantom-', tally_pool=None,
+    pool=False) instead of spelled out; records handed over by keyword"""
+    c = gen_one(rng)
+    if rng.chance(0.7):
+        for _ in range(12):                 # mostly style-based cases: that is where `use_style` can be left out
+            if c["use_style"]:
+                break
+            c = gen_one(rng)
+    if c.get("tally_pools_arg") is not None and rng.chance(0.5):
+        c["tally_pools_arg"] = None
+    c["call"] = "defaults"
+    return c
+
+
 def gen(rng, n, tier):
+    import hashlib
+    from ..core import Rng
+    opt = Rng(int(hashlib.sha1(("options" + repr(rng.getstate())).encode()).hexdigest()[:15], 16))
+    yield from gen_main(rng, n, tier)
+    for _ in range(max(8, n // 10)):
+        yield gen_options(opt)
+
+
+def gen_main(rng, n, tier):
     table = single_pair_table()
     pick = table if tier == "thorough" else rng.sample(table, min(len(table), n // 10))
     for c in pick[:n]:
